@@ -396,7 +396,7 @@ def model_ok_value(x):
     if isinstance(x, U.MatchTimeSignature):
         return all(model_ok_value(o) for o in x.other_components)
     if isinstance(x, float):
-        ax = abs(x)
+        ax = abs(float(x))  # float(): a numpy scalar has another repr
         return x == x and ax < 1e15 and (ax == 0 or ax >= 1e-4) and len(repr(ax).replace(".", "").lstrip("0")) <= 15
     return True
 
@@ -521,6 +521,53 @@ def build(kind, ver, f):
         cls = getattr(M, (KINDS1 if one else KINDS0)[kind])
         return cls(version=v, time=f["Time"], value=f["Value"])
     raise ValueError(kind)
+
+
+def has_float(f):
+    if isinstance(f, dict):
+        return any(has_float(v) for v in f.values())
+    if isinstance(f, list):
+        return any(has_float(v) for v in f)
+    return isinstance(f, float)
+
+
+def npify(f):
+    """the same JSON field values with every Python float replaced by the equal numpy.float64 scalar"""
+    import numpy as np
+    if isinstance(f, dict):
+        return {k: npify(v) for k, v in f.items()}
+    if isinstance(f, list):
+        return [npify(v) for v in f]
+    if isinstance(f, float):
+        return np.float64(f)
+    return f
+
+
+def given_leaves(kind, f, pre=""):
+    """(field name, given plain value) of the JSON field values a line is constructed from: numbers, strings, None and
+    flat lists of them (durations and interpreted info values have their own clauses)"""
+    fr = set(n for n, _ in frac_descs(f))
+    for k, v in f.items():
+        if k in ("snote", "note", "stime", "ptime") and isinstance(v, dict):
+            for n, x in given_leaves(k, v, k + "."):
+                yield n, x
+        elif isinstance(v, dict) or k in fr or (k == "Value" and kind in ("info", "meta", "scoreprop")):
+            continue
+        elif isinstance(v, list) and any(isinstance(x, (list, dict)) for x in v):
+            continue
+        else:
+            yield pre + k, v
+
+
+OLD_ALTER = {None: "-", 0: "n", 1: "#", -1: "b", 2: "x", -2: "bb"}
+
+
+def note_text_v0(f):
+    """the 0.3.0-0.5.0 performed-note text of the given field values, written from the format's definition:
+    note(Id,[Name,accidental],octave,onset,offset,adjusted offset,velocity) - seven independent fields"""
+    return "note(%s,[%s,%s],%s,%d,%d,%d,%d)." % (
+        f["Id"], f["NoteName"].upper(), OLD_ALTER[f["Modifier"]], "-" if f["Octave"] is None else "%d" % f["Octave"],
+        f["Onset"], f["Offset"], f["AdjOffset"], f["Velocity"])
 
 
 def cls_of(kind, ver):
@@ -780,7 +827,10 @@ def g_note(rng, ver):
         on = rng.randint(0, 10 ** rng.randint(2, 7))
         f["Onset"] = on
         f["Offset"] = on + rng.randint(0, 5000)
-        f["AdjOffset"] = f["Offset"] + rng.choice([0, 0, rng.randint(0, 3000)])
+        # AdjOffset is an INDEPENDENT tick field of the line: equal, later (pedal) and EARLIER than Offset, even than Onset
+        f["AdjOffset"] = rng.choice([f["Offset"], f["Offset"] + rng.randint(0, 3000), f["Offset"] + rng.randint(0, 3000),
+                                     max(0, f["Offset"] - rng.randint(1, 5000)), max(0, f["Offset"] - 1),
+                                     rng.randint(0, 10 ** rng.randint(1, 7))])
     f["Velocity"] = rng.randint(0, 127)
     return f
 
@@ -1059,8 +1109,13 @@ def cases(rng, tier):
         for _ in range(4):
             yield {"k": "line", "kind": "scoreprop", "ver": list(V1), "f": g_scoreprop(rng, attr)}
     for kind, ver in all_classes():
-        for _ in range(n):
-            yield {"k": "line", "kind": kind, "ver": list(ver), "f": g_fields(rng, kind, ver)}
+        for i in range(n):
+            d = {"k": "line", "kind": kind, "ver": list(ver), "f": g_fields(rng, kind, ver)}
+            if i % 5 == 4 and has_float(d["f"]):
+                # the same line CONSTRUCTED from numpy floating scalars (a beat time taken from an array): np.float64 is
+                # a float, the constructors accept it, and the written text must be the one of the equal Python float
+                d["np"] = 1
+            yield d
     # the bound of symbolic durations: every numerator / denominator at 1023, 1024, 1025 (and beyond), sums whose
     # common denominator or summed numerator is exactly the bound - alone, added, and inside every line kind / version
     # that carries a duration
@@ -1171,11 +1226,36 @@ def eval_line(d):
     kind, ver, f = d["kind"], tuple(d["ver"]), d["f"]
     m = mods()
     U = m["U"]
-    obj, e = call(build, kind, ver, f)
+    obj, e = call(build, kind, ver, npify(f) if d.get("np") else f)
     if e is not None:
         raise e  # generator bug: the case does not describe a constructible object
     tpl = tplname(kind, ver)
     flds = fields_of(obj)
+    # ---- the object holds the plain values it was constructed from (every field is independent of the others)
+    held0 = dict(flds)
+    for name, x in given_leaves(kind, f):
+        if name in held0 and not values_equal(held0[name], x):
+            ev.oracle.append("construct: %s %s: field %s constructed from %s holds %s" % (
+                kind, ver, name, canon(x), canon(held0[name])))
+    # ---- the text of a tick-valued performed note, read and written against the format's definition
+    if (0, 3, 0) <= ver < (1, 0, 0):
+        for nk, nf in (("note", f if kind == "note" else f.get("note")),):
+            if not isinstance(nf, dict) or "AdjOffset" not in nf:
+                continue
+            text = note_text_v0(nf)
+            ncls = cls_of("note", ver)
+            nb, ne = call(ncls.from_matchline, text, version=U.Version(*ver))
+            if ne is not None:
+                ev.oracle.append("text: note %s: %r is not read: %s" % (ver, text, ne))
+                continue
+            for fn in nb.field_names:
+                if fn in nf and not values_equal(getattr(nb, fn), nf[fn]):
+                    ev.oracle.append("text: note %s: field %s of %r read as %s" % (ver, fn, text, canon(getattr(nb, fn))))
+            t2, ne2 = call(lambda: nb.matchline)
+            # (the case of the note-name letter is a convention of the version, not a field: either is the same text)
+            low = text.replace("[" + nf["NoteName"].upper() + ",", "[" + nf["NoteName"].lower() + ",", 1)
+            if ne2 is not None or t2 not in (text, low):
+                ev.oracle.append("text: note %s: %r is written back as %r" % (ver, text, ne2 or t2))
     modelled = all(model_ok_value(v) for _, v in flds)
     # ---- the durations the line was built from (independent reading of the bound, model of the constructor)
     held = dict(flds)
